@@ -355,7 +355,8 @@ def _r5(ctx):
         if depth and isinstance(v, ast.Name) and v.id in a.module.globals:
             return empty_roles(a.module.globals[v.id], depth - 1)
         return None
-    neutral = [empty_roles(s.value) for s in first.body if isinstance(s, ast.Assign) and U(s.targets[0]) == "instruction_form.semantic_operands"]
+    neutral = [empty_roles(s.value) if empty_roles(s.value) is not None else C.empty_roles_value(ctx, a, s.value)
+               for s in first.body if isinstance(s, ast.Assign) and U(s.targets[0]) == "instruction_form.semantic_operands"]
     ok = "instruction_form.mnemonic is None" in parts and neutral == [True] and isinstance(first.body[-1], ast.Return)
     recognised = not ("instruction_form.mnemonic is None" in parts and neutral == [None] and isinstance(first.body[-1], ast.Return))
     uses_before = [n for s in a.node.body[: a.node.body.index(first)] for n in ast.walk(s)
